@@ -13,7 +13,7 @@ sys.path.insert(0, os.path.join(ROOT, "tools"))
 import props  # noqa: E402
 
 FINDINGS = {
-    "D3": ("stale or incoherent atomic read: modification_order joins are not propagated (coherence / RMW atomicity violated)", "src/rt/atomic.rs apply_load_coherence/match_rmw_to_stores", "A0 | sp 1 ; cas 0 0 5 sc sc ; jn 1 | st 0 2 sc ; rmw 0 add 2 sc"),
+    "D4": ("RMW atomicity / coherence: a store that is concurrent with an RMW is not ordered after the RMW's write in modification order, so a later load of the storing thread reads the RMW's value (mo: init, RMW, store) although the RMW read init", "src/rt/atomic.rs store()/apply_load_coherence (the 'RMW Atomicity' rule of the file header is not implemented)", "A0 | sp 1 ; sp 2 ; jn 1 ; jn 2 | st 0 1 rlx ; ld 0 rlx | rmw 0 add 2 rlx ; ld 0 rlx"),
     "D5": ("unpark of a thread blocked on a join/lock wakes it: internal panic `assertion failed: state.notified` or a lost wake-up", "src/rt/thread.rs set_unparked", "A0 | sp 1 ; jn 1 | up 0"),
     "D6": ("try_recv on an empty channel has no branch point and is independent of send: the reversal is never explored", "src/sync/mpsc.rs try_recv / src/rt/mpsc.rs", "H | sp 1 ; trv 0 ; jn 1 ; drx 0 | sd 0 1"),
     "D11": ("a park token is erased when the thread blocks on / is woken by an object (set_blocked/set_runnable): false deadlock", "src/rt/thread.rs set_runnable/set_blocked", "see instances"),
@@ -38,7 +38,7 @@ def classify(prog, dev):
     if kind == "missing" and has("tl", "trd", "twr"):
         return "D13"
     if kind == "forbidden" and has("ld", "rmw", "cas", "fu", "aw"):
-        return "D3"
+        return "D4"
     if has("wt", "n1", "na", "nw", "nn"):
         return "D15"
     return None
